@@ -11,10 +11,8 @@ search:          the property oracle: a session into which the harness injected 
                  the phase in which the malformed input is supplied (for slicer reference keywords / too few intervals /
                  fit methods: the fit call that uses them); a session without injected malformation must not raise.
 """
-import copy
 import itertools
 import json
-import math
 import traceback
 import warnings
 
